@@ -242,7 +242,7 @@ def gen_term(rng, depth: int, unclean: bool):
         c = pick_astral(rng)
         return {"k": "char", "c": c, "e": rng.random() < 0.7, "q": gen_q(rng)}
     if x < 0.75:
-        return gen_set(rng, unclean, rng.choice([0.0, 0.5, 0.8, 1.0]), allow_mixed=rng.random() < 0.5)
+        return gen_set(rng, unclean, rng.choice([0.0, 0.5, 0.8, 1.0]), allow_mixed=rng.random() < 0.75)
     if x < 0.87 and depth > 0:
         return {"k": "group", "u": gen_union(rng, depth - 1, unclean), "q": gen_q(rng)}
     if x < 0.91:
